@@ -422,7 +422,8 @@ func execC08Multi(c *child.Ctx, k multiCase) {
 		}
 		for i, row := range dm.Signals {
 			if len(row) != rowLen(i) {
-				c.Count("decode_failures_left_to_C04", 1)
+				cjm, _ := json.Marshal(k)
+				c.Violate("cell-missing", fmt.Sprintf("MSM7 type %d decoded without an error, but satellite %d has %d signal cells where its row of the cell mask has %d (signal ids %v)", k.Type, i, len(row), rowLen(i), k.SigIDs), cjm)
 				return
 			}
 		}
@@ -442,7 +443,11 @@ func execC08Multi(c *child.Ctx, k multiCase) {
 		}
 		for i, row := range dm.Signals {
 			if len(row) != rowLen(i) {
-				c.Count("decode_failures_left_to_C04", 1)
+				// decoded without an error, but a satellite has fewer or more cells than its
+				// row of the cell mask: whatever is reported for the missing signal, and
+				// for the cells after it, is not the standard's value
+				cjm, _ := json.Marshal(k)
+				c.Violate("cell-missing", fmt.Sprintf("MSM4 type %d decoded without an error, but satellite %d has %d signal cells where its row of the cell mask has %d (signal ids %v)", k.Type, i, len(row), rowLen(i), k.SigIDs), cjm)
 				return
 			}
 		}
